@@ -190,7 +190,71 @@ func init() {
 	}
 }
 
+// ViaLedgerAdapter makes NewStorage put the library's own LedgerBaseStorage adapter (a BaseStorage over the
+// key/value Ledger interface an execution environment implements) between the storage and the logging/faulting
+// ledger.  A process-wide switch: each task that uses it sets it for its own duration (workers run one task at a time).
+var ViaLedgerAdapter bool
+
 // NewStorage opens a PersistentSlabStorage over the ledger.
 func NewStorage(l *Ledger) *atree.PersistentSlabStorage {
+	if ViaLedgerAdapter {
+		return atree.NewPersistentSlabStorage(atree.NewLedgerBaseStorage(&ledgerFace{l}), encMode, decMode, DecodeStorable, DecodeTypeInfo)
+	}
 	return atree.NewPersistentSlabStorage(l, encMode, decMode, DecodeStorable, DecodeTypeInfo)
+}
+
+// ledgerFace presents a *Ledger through atree's Ledger interface (owner, key) -> value; an empty value deletes.
+type ledgerFace struct{ l *Ledger }
+
+var _ atree.Ledger = &ledgerFace{}
+
+func faceID(owner, key []byte) (atree.SlabID, error) {
+	var a atree.Address
+	var ix atree.SlabIndex
+	p := len(atree.LedgerBaseStorageSlabPrefix)
+	if len(owner) != len(a) || len(key) != p+len(ix) || string(key[:p]) != atree.LedgerBaseStorageSlabPrefix {
+		return atree.SlabID{}, fmt.Errorf("harness: unexpected ledger key %x / %x", owner, key)
+	}
+	copy(a[:], owner)
+	copy(ix[:], key[p:])
+	return atree.NewSlabID(a, ix), nil
+}
+
+func (f *ledgerFace) GetValue(owner, key []byte) ([]byte, error) {
+	id, err := faceID(owner, key)
+	if err != nil {
+		return nil, err
+	}
+	b, _, err := f.l.Retrieve(id)
+	return b, err
+}
+
+func (f *ledgerFace) SetValue(owner, key, value []byte) error {
+	id, err := faceID(owner, key)
+	if err != nil {
+		return err
+	}
+	if len(value) == 0 {
+		return f.l.Remove(id)
+	}
+	return f.l.Store(id, value)
+}
+
+func (f *ledgerFace) ValueExists(owner, key []byte) (bool, error) {
+	id, err := faceID(owner, key)
+	if err != nil {
+		return false, err
+	}
+	_, ok := f.l.Regs[id]
+	return ok, nil
+}
+
+func (f *ledgerFace) AllocateSlabIndex(owner []byte) (atree.SlabIndex, error) {
+	var a atree.Address
+	copy(a[:], owner)
+	id, err := f.l.GenerateSlabID(a)
+	if err != nil {
+		return atree.SlabIndex{}, err
+	}
+	return id.Index(), nil
 }
